@@ -22,6 +22,52 @@ let ints_line (l : int list) = String.concat " " (Stdlib.List.map string_of_int 
 
 let handle (toks : string list) : string option =
   match toks with
+  | [ "asyncread"; guard; c; ks; sched ] ->
+      (* asyncread <guard 0|1> <cell page count> <k0,k1,..: page numbers stored in page i> <s|c<i>,...>
+         page numbers are 1..total, the bytes of page i are the single token i *)
+      let split_commas s = if s = "-" then [] else String.split_on_char ',' s in
+      let ks = Stdlib.List.map int_of_string (split_commas ks) in
+      let total = Stdlib.List.length ks in
+      let c = int_of_string c in
+      let cellp = Stdlib.List.init c (fun i -> n_of_int (i + 1)) in
+      let next = ref (c + 1) in
+      let pgs =
+        Stdlib.List.mapi
+          (fun i k ->
+            let pns = Stdlib.List.init k (fun j -> n_of_int (!next + j)) in
+            next := !next + k;
+            (pns, [ n_of_int i ]))
+          ks
+      in
+      let l = { AsyncRead.cellp = cellp; AsyncRead.pgs = pgs } in
+      let g = guard = "1" in
+      let st = ref (Some AsyncRead.rinit) in
+      let subs = Buffer.create 64 in
+      Stdlib.List.iter
+        (fun tok ->
+          match !st with
+          | None -> ()
+          | Some s ->
+              if tok = "s" then (
+                match AsyncRead.submit g l s with
+                | AsyncRead.SNone -> Buffer.add_string subs "-,"
+                | AsyncRead.SOk s' ->
+                    Buffer.add_string subs (string_of_int (int_of_nat s.AsyncRead.req) ^ ",");
+                    st := Some s'
+                | AsyncRead.SPanic -> st := None)
+              else
+                let i = int_of_string (String.sub tok 1 (String.length tok - 1)) in
+                st := Some (AsyncRead.complete l (nat_of_int i) s))
+        (split_commas sched);
+      ignore total;
+      (match !st with
+       | None -> Some "panic"
+       | Some s ->
+           Some
+             (Printf.sprintf "subs=%s done=%d val=%s asked=%s" (Buffer.contents subs)
+                (if AsyncRead.coq_done l s then 1 else 0)
+                (String.concat "," (Stdlib.List.map (fun x -> string_of_int (int_of_n x)) s.AsyncRead.coq_val))
+                (String.concat "," (Stdlib.List.map (fun x -> string_of_int (int_of_n x)) s.AsyncRead.asked))))
   | [ "shards"; n ] ->
       let regions = Shards.shard_regions (nat_of_int (int_of_string n)) in
       Some
